@@ -167,6 +167,7 @@ func main() {
 	r.Require("judged_depth/4", int64(n/10))
 	r.Require("answer_cuts_inspected", int64(n*20))
 	r.Require("mid_flight_inspections", int64(n/6))
+	r.Require("referrals_with_narrowed_observation_window", int64(n/6))
 	r.Require("referrals_logged", int64(n*3))
 	r.Require("probes_after_bound", int64(n*8))
 	r.Require("after/new-nxdomain", int64(n))
@@ -815,6 +816,10 @@ func (run *runner) scenario(index int) {
 	}
 	w.mu.Unlock()
 	r.Count("referrals_logged", nref)
+	w.mu.Lock()
+	r.Count("referrals_with_narrowed_observation_window", w.tight)
+	r.Count("referrals_in_windows_with_side_trees", w.unclean)
+	w.mu.Unlock()
 	r.Count("prefetch_refreshes_observed", int(prefetches()-prefetch0))
 	if judged > 0 {
 		r.Count("scenarios_judged", 1)
